@@ -355,8 +355,67 @@ def handleE2E (sel : String) (toks : List String) : String :=
       let reasons := e2eMutation x m
       "-\t" ++ verdict reasons ++ "\t" ++ classOf (reasons.map (e2eReasonClass x m))
 
+/-! ### end to end: the emitted layer against the FOLD of the whole declared list
+
+`acc.fold <pre> <k> <token> …`: `pre` is the node graph of a tarfs holding what the packages ship (built by the harness
+from the package description), the `m,` tokens are the declared path mutations in the order the configuration files
+declare them (the first `k` in the `include:`d file, the rest in the including one) and the `e,` tokens are the entries
+of the layer a whole `apko build` emitted.  The model applies `mutatePaths` to the list as the build receives it
+(`buildPaths`: merged with the include, copied per architecture) and every name in the compared part of the tree must
+be in the layer with the kind, permission bits, owner and link target the model's final state has — and no other. -/
+
+def startsWith (pre : String) (n : Name) : Bool := pre.toList.isPrefixOf n
+
+/-- the part of the tree the path mutations of the end-to-end cases work on (accounts, /etc/apko.json, os-release
+and the home directories live elsewhere) -/
+def foldScope (p : List Name) : Bool :=
+  match p with
+  | [] => false
+  | h :: t =>
+    h = "srv".toList || h = "usr".toList || h = "opt".toList || h = "sbin".toList || startsWith "made" h ||
+    (h = "etc".toList && (match t with | [x] => startsWith "empty" x | _ => false))
+
+def foldEntryFails (n : Inode) (e : LEntry) : List Text :=
+  let kindOK : Bool :=
+    if n.dir then e.typeflag = 53 else if n.isSymlink then e.typeflag = 50 else (e.typeflag = 48 || e.typeflag = 49)
+  (if kindOK then [] else [tr "fold-type"]) ++
+  (if n.isSymlink then (if e.link = n.target then [] else [tr "fold-target"])
+   else if e.mode = unixPerm n.mode then [] else [tr "fold-perm"]) ++
+  (if (e.uid : Int) = n.uid ∧ (e.gid : Int) = n.gid then [] else [tr "fold-owner"])
+
+def foldFails (fs : FS) (entries : List LEntry) : List Text :=
+  let model := (walk fs).filter fun e => foldScope e.1
+  (model.flatMap fun e =>
+    match entries.find? (fun k => parts k.name = e.1) with
+    | none => [tr "fold-missing"]
+    | some k => foldEntryFails (fs.node e.2) k) ++
+  ((entries.filter fun k => foldScope (parts k.name)).flatMap fun k =>
+    if model.any (fun e => e.1 = parts k.name) then [] else [tr "fold-extra"])
+
+def handleFold (pre ks : String) (toks : List String) : String :=
+  match parseDump pre with
+  | none => "bad-request\tfail:bad-request\tunlisted"
+  | some fs0 =>
+    let x := parseE2E toks
+    let k := parseNat ks
+    let (ifs, ie) := mutatePaths cfgT fs0 (buildPaths (x.muts.take k) (x.muts.drop k))
+    let reasons : List Text :=
+      match ie with
+      | some e => [tr "fold-error-" ++ aerrS e]
+      | none => foldFails ifs x.entries
+    "-\t" ++ verdict reasons ++ "\t" ++ (if reasons = [] then "-" else "unlisted")
+
+/-- `acc.merge <k> <token> …`: what `MergeInto` makes of a list whose first `k` elements the included configuration
+declares and the rest the including one (tokens are opaque: paths, users, groups, volumes alike) -/
+def handleMerge (ks : String) (toks : List String) : String :=
+  let k := parseNat ks
+  let r := String.intercalate "|" (mergeLists (toks.take k) (toks.drop k))
+  r ++ "\t" ++ r ++ "\tunlisted"
+
 def handle (args : List String) : Option String :=
   match args with
+  | "acc.fold" :: pre :: k :: toks => some (handleFold pre k toks)
+  | "acc.merge" :: k :: toks => some (handleMerge k toks)
   | ["acc.mut", pre, goRes, post, m] => some (handlePaths pre goRes post [m])
   | "acc.paths" :: pre :: goRes :: post :: ms => some (handlePaths pre goRes post ms)
   | "acc.accounts" :: pre :: goRes :: post :: toks => some (handleAccounts pre goRes post toks)
